@@ -3,6 +3,7 @@ package main
 import (
 	"context"
 	"fmt"
+	"math"
 	"math/rand"
 	"runtime"
 	"strings"
@@ -142,12 +143,29 @@ func sortInts(a []int) {
 
 func isBad(s string) bool { return s == "RPanic" || strings.HasSuffix(s, "false false)") || s == "RInvalid" }
 
-func genCont(r *rand.Rand, kind string, thorough bool) vh.Case {
+func genCont(r *rand.Rand, label string, thorough bool) vh.Case {
 	keyTable = nil
 	cfg := genCfg(r)
+	// round-8 classes (emitted after all the others, from fixed sub-seeds): the same containers with unusual arguments
+	//   nilmap   map histories in which about half of the Sets store a nil value (written -1 in the Coq term)
+	//   maxlru / maxtiny   LRUs built with the "no limit" capacities MaxInt64 - d, d in {0, 1, n-1, n, n+1}, n >= 2 shards
+	kind, nilVals, maxCap := label, false, false
+	switch label {
+	case "nilmap":
+		kind, nilVals = "map", true
+	case "maxlru":
+		kind, maxCap = "lru", true
+	case "maxtiny":
+		kind, maxCap = "tiny", true
+	}
+	if maxCap && cfg.n < 2 {
+		// one shard: capacity/1 + 1 itself leaves int64 for MaxInt64 (the model's per-shard capacity is an unbounded integer)
+		cfg.n = uint64(2 + r.Intn(4))
+		cfg.ropts = []remap.Option{remap.WithPrime(cfg.n)}
+	}
 	// half of the LRU histories: few shards, a per-shard capacity of 2..4 entries, unit sizes, many keys per shard, so
 	// that which entry is the least recently used one decides the answers that follow
-	pressure := (kind == "lru" || kind == "tiny") && r.Intn(2) == 0
+	pressure := !maxCap && (kind == "lru" || kind == "tiny") && r.Intn(2) == 0
 	if pressure {
 		cfg.deflt = false
 		cfg.n = uint64(1 + r.Intn(3))
@@ -157,7 +175,7 @@ func genCont(r *rand.Rand, kind string, thorough bool) vh.Case {
 	steps := 12 + r.Intn(40)
 	var obs, descs []string
 	var kindTerm string
-	desc := map[string]interface{}{"kind": kind, "xhash": cfg.xh, "shards": cfg.n, "default_prime": cfg.deflt}
+	desc := map[string]interface{}{"kind": label, "xhash": cfg.xh, "shards": cfg.n, "default_prime": cfg.deflt}
 	emit := func(opCoq, opDesc string, k pkey, sh, ref, un string) bool {
 		i, iok := safeIndex(rm, cfg.xh, k.v)
 		obs = append(obs, obsTerm(opCoq, i, iok, sh, ref, un))
@@ -167,9 +185,15 @@ func genCont(r *rand.Rand, kind string, thorough bool) vh.Case {
 	switch kind {
 	case "map":
 		kindTerm = "KMap"
-		runMap(r, cfg, steps, emit)
+		desc["nil_values"] = nilVals
+		runMap(r, cfg, steps, nilVals, emit)
 	case "lru", "tiny":
-		capacity := pickCap(r, cfg.n)
+		capacity := int64(0)
+		if maxCap {
+			capacity = math.MaxInt64 - []int64{0, 0, 1, int64(cfg.n) - 1, int64(cfg.n), int64(cfg.n) + 1}[r.Intn(6)]
+		} else {
+			capacity = pickCap(r, cfg.n)
+		}
 		if pressure {
 			capacity = int64(1+r.Intn(3))*int64(cfg.n) + int64(r.Intn(int(cfg.n)))
 		}
@@ -203,9 +227,9 @@ func genCont(r *rand.Rand, kind string, thorough bool) vh.Case {
 		runSem(r, cfg, ratio, steps, emit)
 	}
 	desc["history"] = descs
-	cls := kind + "-s"
+	cls := label + "-s"
 	if cfg.xh {
-		cls = kind + "-x"
+		cls = label + "-x"
 	}
 	return vh.Case{Coq: fmt.Sprintf("CCont %s %s %s %s %s", kindTerm, vh.CoqBool(cfg.xh), zu(cfg.n), vh.CoqList(keyTable), vh.CoqList(obs)),
 		Class: cls, Nontrivial: len(obs) > 0 && cfg.n >= 2, Desc: desc}
@@ -215,7 +239,7 @@ type emitFn func(opCoq, opDesc string, k pkey, sh, ref, un string) bool
 
 // ---- cache.WideMap vs cache.Map ----
 
-func runMap(r *rand.Rand, cfg contCfg, steps int, emit emitFn) {
+func runMap(r *rand.Rand, cfg contCfg, steps int, nilVals bool, emit emitFn) {
 	var sh cache.MapFacade
 	if cfg.xh {
 		sh = cache.NewWideXHashMap(cfg.ropts...)
@@ -235,9 +259,16 @@ func runMap(r *rand.Rand, cfg contCfg, steps int, emit emitFn) {
 			if !ok {
 				return "RNone"
 			}
+			if x == nil { // a key stored with a nil value is present: written as the value -1
+				return "(RSome " + z(-1) + ")"
+			}
 			return "(RSome " + z(int64(x.(int))) + ")"
 		case 1:
-			m.Set(k.v, v)
+			if v < 0 {
+				m.Set(k.v, nil)
+			} else {
+				m.Set(k.v, v)
+			}
 			return "RUnit"
 		case 2:
 			m.Delete(k.v)
@@ -250,12 +281,21 @@ func runMap(r *rand.Rand, cfg contCfg, steps int, emit emitFn) {
 		k := pool[r.Intn(len(pool))]
 		op := []int{0, 0, 1, 1, 1, 2, 3}[r.Intn(7)]
 		v := r.Intn(50)
+		if nilVals {
+			op = []int{0, 0, 1, 1, 1, 2, 3, 3, 3}[r.Intn(9)]
+			if r.Intn(2) == 0 {
+				v = -1
+			}
+		}
 		var opCoq, opDesc string
 		switch op {
 		case 0:
 			opCoq, opDesc = "OGet "+k.hk, "Get "+k.desc
 		case 1:
 			opCoq, opDesc = fmt.Sprintf("OSet %s %s 1%%Z", k.hk, z(int64(v))), fmt.Sprintf("Set %s %d", k.desc, v)
+			if v < 0 {
+				opDesc = fmt.Sprintf("Set %s nil", k.desc)
+			}
 		case 2:
 			opCoq, opDesc = "ODelete "+k.hk, "Delete "+k.desc
 		default:
